@@ -104,11 +104,11 @@ fn spec_valid(start: &Certificate, served: &HashMap<String, Certificate>, gv: &G
         if p.hash != c.previous_hash { return Err("parent served under another hash".into()); }
         let same = p.epoch == c.epoch;
         let link = if same {
-            p.aggregate_verification_key == c.aggregate_verification_key && p.metadata.protocol_parameters == c.metadata.protocol_parameters
+            same_key(&p.aggregate_verification_key, &c.aggregate_verification_key) && p.metadata.protocol_parameters == c.metadata.protocol_parameters
         } else if p.epoch.0 + 1 == c.epoch.0 {
             p.protocol_message.get_message_part(&ProtocolMessagePartKey::NextAggregateVerificationKey)
                 .and_then(|s| ProtocolAggregateVerificationKeyForConcatenation::try_from(s.as_str()).ok())
-                .map(|k| k == c.aggregate_verification_key).unwrap_or(false)
+                .map(|k| same_key(&k, &c.aggregate_verification_key)).unwrap_or(false)
                 && p.protocol_message.get_message_part(&ProtocolMessagePartKey::NextProtocolParameters)
                     .map(|s| *s == c.metadata.protocol_parameters.compute_hash()).unwrap_or(false)
         } else { false };
@@ -116,6 +116,11 @@ fn spec_valid(start: &Certificate, served: &HashMap<String, Certificate>, gv: &G
         c = p.clone();
     }
     Err("no genesis within the step bound".into())
+}
+
+/// key identity on the canonical encoding, not through the code's own `PartialEq`
+fn same_key(a: &ProtocolAggregateVerificationKeyForConcatenation, b: &ProtocolAggregateVerificationKeyForConcatenation) -> bool {
+    match (a.to_json_hex(), b.to_json_hex()) { (Ok(x), Ok(y)) => x == y, _ => false }
 }
 
 fn rehash(c: &mut Certificate) { c.hash = c.try_compute_hash().unwrap(); }
@@ -250,6 +255,107 @@ fn main() {
                     let mut s = honest.clone();
                     s.insert(c.previous_hash.clone(), forged);
                     run(&mut sink, "forged-hash-field", &certs[0], &s);
+                }
+            }
+            // ======== sessions: several verify_chain calls on ONE client / ONE cache, the provider answering
+            // differently each time (K: every result and the cache afterwards; S: every accepted start is a valid
+            // chain over the hash-consistent certificates ever served) =========================================
+            {
+                // material: the first certificate of an epoch whose parent P is in the previous epoch; adversary F
+                // (own key) re-linked to P; F2 of the next adversary epoch linked to F; P' = P with the adversary's
+                // next key and the hash NOT recomputed
+                let boundary = certs.iter().find(|c| !c.is_genesis() && certs.iter().any(|p| p.hash == c.previous_hash && p.epoch != c.epoch && !p.is_genesis()));
+                let mut poison: Option<(Certificate, Certificate, Certificate, Certificate)> = None;
+                if let Some(c) = boundary {
+                    let p_cert = honest[&c.previous_hash].clone();
+                    let advs = &adv.certificates_chained;
+                    if let Some(a) = advs.iter().find(|a| a.epoch == c.epoch && !a.is_genesis() && advs.iter().any(|p| p.hash == a.previous_hash && p.epoch != a.epoch)) {
+                        if let Some(a2) = advs.iter().find(|x| x.previous_hash == a.hash && x.epoch != a.epoch) {
+                            let mut f = a.clone(); f.previous_hash = p_cert.hash.clone(); rehash(&mut f);
+                            let mut f2 = a2.clone(); f2.previous_hash = f.hash.clone(); rehash(&mut f2);
+                            let mut p_alt = p_cert.clone();
+                            p_alt.protocol_message.set_message_part(ProtocolMessagePartKey::NextAggregateVerificationKey, f.aggregate_verification_key.to_json_hex().unwrap());
+                            poison = Some((f, f2, p_alt, p_cert));
+                        }
+                    }
+                }
+                type Call = (&'static str, Certificate, HashMap<String, Certificate>);
+                let mut sessions: Vec<(&'static str, Vec<Call>)> = vec![];
+                if let Some((f, f2, p_alt, p_cert)) = &poison {
+                    let mut s1 = honest.clone(); s1.insert(p_cert.hash.clone(), p_alt.clone()); s1.insert(f.hash.clone(), f.clone());
+                    let mut s2 = honest.clone(); s2.insert(f.hash.clone(), f.clone()); s2.insert(f2.hash.clone(), f2.clone());
+                    sessions.push(("session-poison", vec![("rejected-head", f.clone(), s1.clone()), ("chained-to-head", f2.clone(), s2.clone())]));
+                    sessions.push(("session-poison-then-honest", vec![("rejected-head", f.clone(), s1.clone()), ("honest", certs[0].clone(), honest.clone()), ("chained-to-head", f2.clone(), s2.clone())]));
+                    sessions.push(("session-honest-poison-direct", vec![("honest", certs[0].clone(), honest.clone()), ("rejected-head", f.clone(), s1), ("head-again", f.clone(), s2.clone()), ("chained-to-head", f2.clone(), s2)]));
+                }
+                // random sessions of 2-4 calls drawn from honest starts and single tamperings
+                for _ in 0..(if args.thorough() { 12 } else { 4 }) {
+                    let mut calls: Vec<Call> = vec![];
+                    for _ in 0..rng.range(2, 4) {
+                        let c = &certs[rng.below(certs.len() as u64) as usize];
+                        match rng.below(5) {
+                            0 | 1 => calls.push(("honest", c.clone(), honest.clone())),
+                            2 => { let mut x = c.clone(); x.signed_message.push('0'); let mut s = honest.clone(); s.insert(c.hash.clone(), x); calls.push(("altered-no-rehash", certs[0].clone(), s)); }
+                            3 => { let mut s = honest.clone(); if !c.is_genesis() { s.remove(&c.previous_hash); } calls.push(("parent-dropped", certs[0].clone(), s)); }
+                            _ => {
+                                if let Some((f, f2, p_alt, p_cert)) = &poison {
+                                    let mut s = honest.clone(); s.insert(f.hash.clone(), f.clone()); s.insert(f2.hash.clone(), f2.clone());
+                                    if rng.bool() { s.insert(p_cert.hash.clone(), p_alt.clone()); }
+                                    calls.push(("adversary", if rng.bool() { f.clone() } else { f2.clone() }, s));
+                                } else { calls.push(("honest", c.clone(), honest.clone())); }
+                            }
+                        }
+                    }
+                    sessions.push(("session-random", calls));
+                }
+                for (tag, calls) in sessions {
+                    if !sink.wanted() { sink.skip(); continue; }
+                    // the session starts from a copy of the cache as warmed so far
+                    let mut all_keys: Vec<String> = honest.keys().cloned().collect();
+                    for (_, st, sv) in &calls { all_keys.push(st.hash.clone()); all_keys.extend(sv.keys().cloned()); }
+                    all_keys.sort(); all_keys.dedup();
+                    let sess_cache = Arc::new(MemoryCertificateVerifierCache::new(chrono::TimeDelta::hours(1)));
+                    let mut snapshot: Vec<(String, String)> = vec![];
+                    for k in &all_keys { if let Ok(Some(p)) = rt.block_on(cache.get_previous_hash(k)) { rt.block_on(sess_cache.store_validated_certificate(k, &p)).unwrap(); snapshot.push((k.clone(), p)); } }
+                    let mut ids = Ids(BTreeMap::new());
+                    let mut outs: Vec<String> = vec![];
+                    let mut call_lines: Vec<String> = vec![];
+                    // every hash-consistent certificate ever served in the session (unique per hash, by collision freeness)
+                    let mut world: HashMap<String, Certificate> = honest.clone();
+                    let mut fails: Vec<(String, String)> = vec![];
+                    for (ctag, start, served) in &calls {
+                        for c in served.values().chain(std::iter::once(start)) {
+                            if c.try_compute_hash().map(|h| h == c.hash).unwrap_or(false) { world.entry(c.hash.clone()).or_insert(c.clone()); }
+                        }
+                        let v = MithrilCertificateVerifier::new(Arc::new(Agg(served.clone())), &gvk_hex, FeedbackSender::new(&[]), Some(sess_cache.clone()), logger.clone()).unwrap();
+                        let out = match MithrilCertificate::try_from(start.clone()) {
+                            Ok(mc) => match rt.block_on(v.verify_chain(&mc)) { Ok(()) => "ok".to_string(), Err(e) => format!("err {}", client_class(&e)) },
+                            Err(_) => "err other".into(),
+                        };
+                        if out == "ok" {
+                            if let Err(why) = spec_valid(start, &world, &gv, 2 * world.len() + 6) {
+                                fails.push(("invalid-chain".into(), format!("call '{}' of the session accepted a certificate that is not validly chained to genesis: {}", ctag, why)));
+                            }
+                        }
+                        outs.push(out);
+                        let mut skeys: Vec<&String> = served.keys().collect();
+                        skeys.sort();
+                        let served_line = skeys.iter().map(|k| format!("({},{})", ids.id(&format!("h:{}", k)), rec(&served[*k], &mut ids, &gv))).collect::<Vec<_>>().join(",");
+                        call_lines.push(format!("({},{},[{}])", 2 * served.len() + 6, rec(start, &mut ids, &gv), served_line));
+                    }
+                    let mut dump: Vec<String> = vec![];
+                    let key_ids: Vec<usize> = all_keys.iter().map(|k| ids.id(&format!("h:{}", k))).collect();
+                    for (k, kid) in all_keys.iter().zip(key_ids.iter()) {
+                        if let Ok(Some(p)) = rt.block_on(sess_cache.get_previous_hash(k)) { dump.push(format!("({},{})", kid, ids.id(&format!("h:{}", p)))); }
+                    }
+                    let cache_line = snapshot.iter().map(|(k, p)| format!("({},{})", ids.id(&format!("h:{}", k)), ids.id(&format!("h:{}", p)))).collect::<Vec<_>>().join(",");
+                    let req = format!("c03.session cache=[{}] keys={} calls=[{}]", cache_line, hutil::list(&key_ids.iter().map(|x| *x as u64).collect::<Vec<_>>()), call_lines.join(","));
+                    let i = sink.case(tag, &req, &format!("{} | {}", outs.join(";"), dump.join(",")));
+                    for (c, w) in fails { sink.sfail(i, &c, &w, &req); }
+                    // the repaired finding, replayed on the real client every run
+                    if tag == "session-poison" && ci == 0 && wf.is_none() {
+                        sink.witness("C03-client-cache-poisoning", outs.last().map(|o| o == "ok").unwrap_or(false), &format!("cold cache; call 1 (adversary head over an altered copy of the boundary certificate) -> {}; call 2 (adversary certificate chained to that head, genuine answers only) -> {}", outs[0], outs[1]));
+                    }
                 }
             }
             // fixed finding witness on the warm cache
